@@ -88,7 +88,7 @@ fn strat(_: &Ctx) -> BoxedStrategy<Case> {
         0.06,
         proptest::sample::select(&["", "ldap", "ldap:", "://localhost", "ldap://:389/", "ldap://127.0.0.1:99999/", "ldap://[::1/", "ldap://exa mple/", "ldap:x", "ldaps:x", "ldapi:x", "ldap://", "ldaps://", "ldapi://", "ldap:/x", "\u{0}", "ldap://%/", "ldapi://%2F:1:2/"][..]).prop_map(String::from),
     );
-    (scheme, host, port, 0u8..3, any::<bool>(), stream, timeout, proptest::bool::weighted(0.15), any::<bool>(), raw)
+    (scheme, host, port, 0u8..5, any::<bool>(), stream, timeout, proptest::bool::weighted(0.15), any::<bool>(), raw)
         .prop_map(|(scheme, host, port, noise, starttls, stream, timeout, silent, sync_api, raw_url)| {
             let is_sock = matches!(host, Host::SockExisting | Host::SockMissing | Host::SockWithColon | Host::SockWithPercent);
             // keep host kinds with the scheme family they make sense for (cross combinations are still URLs the library must not panic on)
@@ -100,7 +100,11 @@ fn strat(_: &Ctx) -> BoxedStrategy<Case> {
             // a name that does not resolve is only meaningful where the pre-opened TCP stream must be used instead (no TLS:
             // the certificate would not match the name)
             let host = if host == Host::Unresolvable && !(stream == Stream::Tcp && matches!(scheme, Scheme::Ldap | Scheme::UpperLdap) && !starttls) { Host::V4 } else { host };
-            let silent_server = silent && starttls && matches!(scheme, Scheme::Ldap | Scheme::UpperLdap) && stream == Stream::None && port == Port::Listening;
+            // a server that accepts and then never answers: during StartTLS on a dialled connection, or during StartTLS /
+            // the TLS handshake on a pre-opened TCP stream (the connection timeout bounds the whole establishment)
+            let silent_server = silent
+                && matches!(host, Host::V4 | Host::Localhost)
+                && ((stream == Stream::None && port == Port::Listening && starttls && matches!(scheme, Scheme::Ldap | Scheme::UpperLdap)) || (stream == Stream::Tcp && ((starttls && matches!(scheme, Scheme::Ldap | Scheme::UpperLdap)) || scheme == Scheme::Ldaps)));
             let timeout = if silent_server { Timeout::Short(match timeout { Timeout::Short(t) => t, _ => 150 }) } else { timeout };
             Case { scheme, host, port, noise, starttls, stream, timeout, silent_server, sync_api, raw_url }
         })
@@ -302,6 +306,7 @@ fn expect(c: &Case, have_389: bool, have_636: bool, l1_v6: bool) -> Exp {
             }
             match c.stream {
                 Stream::Unix | Stream::Invalid => return Exp::Err,
+                Stream::Tcp if c.silent_server => return Exp::ErrTimeout,
                 Stream::Tcp => return Exp::Ok(Target::PreTcp),
                 Stream::None => {}
             }
@@ -363,11 +368,13 @@ fn url_of(c: &Case, l1_port: u16, closed_port: u16, sock_dir: &std::path::Path) 
         (Port::NonNumeric, _) => ":abc".to_string(),
     };
     let noise = match c.noise {
-        0 => "",
+        0 | 3 => "",
         1 => "/",
         _ => "/dc=example,dc=org??sub?(cn=*)",
     };
-    format!("{}://{}{}{}", scheme, host, port, noise)
+    // userinfo in front of the host (TCP schemes only): to be ignored, host and port stay what they are
+    let userinfo = if c.noise >= 3 && !matches!(c.scheme, Scheme::Ldapi) && c.host != Host::Absent { "user:pw@" } else { "" };
+    format!("{}://{}{}{}{}", scheme, userinfo, host, port, noise)
 }
 
 pub fn check(c: &Case, obs: &mut Obs) -> Result<(), Fail> {
@@ -608,7 +615,7 @@ pub fn property() -> Property {
     Property {
         id: "C18",
         level: "exploration",
-        rule: "generated URL x settings combinations through both LdapConnAsync::with_settings and LdapConn::with_settings against real loopback endpoints: scheme {ldap, LDAP, ldaps, ldapi, ldapx, http} x host {127.0.0.1, localhost, [::1], absent, percent-encoded socket path existing / missing / containing %3A / containing a literal %41 (written %2541), a name that does not resolve (with a pre-opened TCP stream, which must be used)} x port {absent (default 389/636 listeners bound by the harness), a listening port, a closed port, 0, non-numeric} x path/query noise x StartTLS flag x pre-opened stream {none, connected TCP, Unix pair, Invalid} x conn_timeout {none, 100-300 ms, 10 s, practically infinite incl. Duration::MAX} x server {cooperative, silent during StartTLS}, plus syntactically broken URLs. Oracle: a reference model of the documented dispatch (DESIGN.md Appendix C) predicts Ok and WHICH endpoint must receive the connection (per-case listeners count accepts), or Err (Timeout for the silent-server case); a panic is always a violation; the silent-server case is a violation only if the client is still blocked after 100x the deadline. Non-trivial: any combination other than plain ldap://host:port with defaults. Distinct = debug rendering of the case.",
+        rule: "generated URL x settings combinations through both LdapConnAsync::with_settings and LdapConn::with_settings against real loopback endpoints: scheme {ldap, LDAP, ldaps, ldapi, ldapx, http} x host {127.0.0.1, localhost, [::1], absent, percent-encoded socket path existing / missing / containing %3A / containing a literal %41 (written %2541), a name that does not resolve (with a pre-opened TCP stream, which must be used)} x port {absent (default 389/636 listeners bound by the harness), a listening port, a closed port, 0, non-numeric} x path/query noise x StartTLS flag x pre-opened stream {none, connected TCP, Unix pair, Invalid} x conn_timeout {none, 100-300 ms, 10 s, practically infinite incl. Duration::MAX} x server {cooperative, silent during StartTLS / the TLS handshake - on a dialled connection or on a pre-opened TCP stream}, optional userinfo in the URL, plus syntactically broken URLs. Oracle: a reference model of the documented dispatch (DESIGN.md Appendix C) predicts Ok and WHICH endpoint must receive the connection (per-case listeners count accepts), or Err (Timeout for the silent-server case); a panic is always a violation; the silent-server case is a violation only if the client is still blocked after 100x the deadline. Non-trivial: any combination other than plain ldap://host:port with defaults. Distinct = debug rendering of the case.",
         assumptions: &[
             "ports 389/636 on 127.0.0.1 and ::1 are bound by the harness; if they cannot be bound those sub-cases are skipped (labelled), never reported",
             "for URLs the documentation does not define (raw broken/authority-less URLs) only a panic is a violation",
